@@ -407,11 +407,19 @@ mut("c10-double-pop", "C10", "a skipped element pops the inheritance stack at on
                         stack[-1] = stack[-2]
                     continue
                 # If no root was established, s is root.''')
-mut("c10-failed-root-leaves-no-tree", "C10", "an outermost svg that cannot be processed is skipped like any element: None or the first child is returned (the pinned tree's defect)",
+mut("c10-undisplayed-root-leaves-no-tree", "C10", "an outermost svg with display none is skipped like any element and None is returned (the pinned tree's defect)",
 '''                    if root is None and SVG_NAME_TAG == tag:
                         # The outermost svg itself: nothing of the document is rendered, it is still a document.
+                        return SVG()
+                    continue  # If the attributes flag our values to display=none, stop rendering.''',
+'''                    continue  # If the attributes flag our values to display=none, stop rendering.''', runs=20000)
+mut("c10-failed-root-leaves-no-tree", "C10", "an outermost svg that cannot be processed is skipped like any element: None or the first child is returned (the pinned tree's defect)",
+'''                        return root
+                    if root is None and SVG_NAME_TAG == tag:
+                        # The outermost svg itself: nothing of the document is rendered, it is still a document.
                         return SVG()''',
-'''                    if False:
+'''                        return root
+                    if False:
                         return SVG()''', runs=80000)
 mut("c10-dangling-use-raises", "C10", "a use whose target does not exist is no longer tolerated",
 '''                        target = event_defs.get(url[1:])  # None: failed to find link.''',
